@@ -31,7 +31,11 @@ PROPERTY Terminates
 
 OBJ = {"a ": "trailing blank", "a": [1, 2, {"b": 3}], "items": [{"n": 1}, {"n": 2}, {"n": 3}], "é": "e-acute", "\\u00e9": "raw", "x y": "decoded", "x%20y": "literal", "s": "str"}
 ARR = [{"a": [1, 2, {"b": 3}], "n": 2}, {"a": [], "n": 0}, "s", {"é": 1, "\\u00e9": 2, "x y": 3, "x%20y": 4, "a ": "trailing blank"}]
+DEEP: Any = {"a": [1]}
+for _i in range(150):
+    DEEP = [DEEP]
 DOCS = {"object": json.dumps(OBJ).encode(), "array": json.dumps(ARR).encode(),
+        "json-string": b'"[1, 2, {\\"a\\": [3]}]"', "deep-array": json.dumps(DEEP).encode(),
         # legal encodings of JSON text other than plain UTF-8 (RFC 8259 8.1 allows a reader to accept them; json.loads does)
         "object-utf16": json.dumps(OBJ).encode("utf-16"), "object-utf8-bom": b"\xef\xbb\xbf" + json.dumps(OBJ).encode(), "malformed": b'{"a": [1, ', "malformed-scalar": b"tru", "undecodable": b'{"a": "\xff\xfe"}', "empty-file": b""}
 
@@ -145,6 +149,8 @@ def replay(rec: Dict[str, Any]) -> List[Tuple[str, Dict[str, Any], str]]:
         else:
             try:
                 docobj = json.loads(doc_bytes)
+                if isinstance(docobj, str):
+                    docobj = io.BytesIO(doc_bytes)      # a string document: handed to the library as the file it is (a str argument would be read as JSON text)
                 want = library_result(rec, expr_text, docobj)
                 want_text = json.dumps(want, indent=2 if o["pretty"] else None)
                 if out_text != want_text:
